@@ -45,6 +45,9 @@ pub struct ElfSpec {
     /// the image is a shared object (ET_DYN) even though it is linked at a non-zero base
     /// (prelink, -Ttext-segment, --image-base)
     pub force_dyn: bool,
+    /// the name of the build-id note section is the last string of the section name table (what
+    /// `objcopy --add-section .note.gnu.build-id=...` produces: the name ends exactly where the table ends)
+    pub note_name_last: bool,
 }
 
 #[derive(Clone, Debug)]
@@ -231,14 +234,11 @@ pub fn build(spec: &ElfSpec) -> ElfImage {
     let (shstr_off, shoff) = if spec.sections_at_end { (file_mapped + 0x380, file_mapped + 0x400) } else { (0x380u64, 0x400u64) };
     let mut shnum = 0u16;
     if spec.sections {
-        let names = b"\0.text\0.note.gnu.build-id\0.shstrtab\0.dynamic\0.dynstr\0";
+        let names: &[u8] = if spec.note_name_last { b"\0.text\0.dynstr\0.shstrtab\0.dynamic\0.note.gnu.build-id\0" } else { b"\0.text\0.note.gnu.build-id\0.shstrtab\0.dynamic\0.dynstr\0" };
         f[shstr_off as usize..shstr_off as usize + names.len()].copy_from_slice(names);
         // name offsets
         let n_text = 1u32;
-        let n_note = 7u32;
-        let n_shstr = 26u32;
-        let n_dynamic = 36u32;
-        let n_dynstr = 45u32;
+        let (n_note, n_shstr, n_dynamic, n_dynstr) = if spec.note_name_last { (34u32, 15u32, 25u32, 7u32) } else { (7u32, 26u32, 36u32, 45u32) };
         let mut i = 0usize;
         let base = shoff as usize;
         shdr(&mut f, base + i * 64, 0, 0, 0, 0, 0, 0, 0, 0);
